@@ -228,12 +228,65 @@ let handle_case fields =
       end
   | _ -> failwith "case: wrong number of fields"
 
+(* ENGINE experiment: two stores into the real GlobalCache<T> under max_memory = M, judged
+   with the specification's footprint of the two values *)
+let engine_ok = ref 0
+let engine_fail = ref 0
+
+let handle_engine fields =
+  match fields with
+  | [ id; _rust_name; ty_s; val1_s; val2_s; m_s; a_s; b_s; pol; sizes_s ] ->
+      incr total;
+      let t = parse_ty_all ty_s in
+      let v1 = parse_val_all val1_s and v2 = parse_val_all val2_s in
+      let sizeof = parse_sizes sizes_s in
+      let s1 = footprint sizeof v1 t and s2 = footprint sizeof v2 t in
+      let m = n_of_string m_s in
+      let le a b = N.leb a b in
+      let problems = ref [] in
+      let add p = problems := p :: !problems in
+      if a_s = "PANIC" then add "the store panicked"
+      else begin
+        let a = a_s = "1" and b = b_s = "1" in
+        let total_stored = N.add (if a then s1 else N0) (if b then s2 else N0) in
+        if not (le total_stored m) then
+          add (Printf.sprintf "the cached values occupy %s bytes, max_memory is %s" (string_of_n total_stored) (string_of_n m));
+        if not (le s2 m) then begin
+          if b then add "a value that alone exceeds max_memory was cached";
+          if le s1 m && not a then add "a value that was never cached displaced an entry"
+        end
+        else begin
+          if not b then add "the value just stored fits alone but is not cached";
+          if le s1 m && le (N.add s1 s2) m && not a then add "an entry was evicted although both values fit"
+        end;
+        if (not (le s1 m)) && a then add "a value that alone exceeds max_memory was cached"
+      end;
+      if !problems = [] then begin
+        incr ok;
+        incr engine_ok;
+        Printf.printf "V %s ok\n" id
+      end
+      else begin
+        incr engine_fail;
+        Printf.printf
+          "F %s C05 on GlobalCache<%s> policy=%s max_memory=%s: store a (footprint %s) then b (footprint %s) -> a cached=%s b cached=%s: %s :: a = %s :: b = %s\n"
+          id ty_s pol m_s (string_of_n s1) (string_of_n s2) a_s b_s
+          (String.concat "; " (List.rev !problems))
+          val1_s val2_s
+      end
+  | _ -> failwith "engine: wrong number of fields"
+
 let handle_line line =
   if line = "" then ()
   else
     match String.split_on_char '|' line with
     | "C" :: fields -> (
         try handle_case fields with
+        | Failure m | Missing_size m ->
+            incr bad;
+            Printf.printf "V ? BADLINE %s :: %s\n" m line)
+    | "E" :: fields -> (
+        try handle_engine fields with
         | Failure m | Missing_size m ->
             incr bad;
             Printf.printf "V ? BADLINE %s :: %s\n" m line)
@@ -272,9 +325,10 @@ let () =
     (fun (k, (a, b)) -> Printf.printf "STAT mode %s ok=%d mismatch=%d\n" k a b)
     (sorted per_mode);
   Printf.printf "STAT distinct_types=%d\n" (Hashtbl.length per_type);
+  Printf.printf "STAT engine_experiments ok=%d failed=%d\n" !engine_ok !engine_fail;
   List.iter
     (fun (k, (a, b)) -> Printf.printf "STAT type [%s] ok=%d mismatch=%d\n" k a b)
     (sorted per_type);
   Printf.printf "STAT verdict %s\n"
-    (if !mismatch = 0 && !bad = 0 && !total > 0 then "PASS" else "FAIL");
-  exit (if !mismatch = 0 && !bad = 0 && !total > 0 then 0 else 1)
+    (if !mismatch = 0 && !bad = 0 && !engine_fail = 0 && !total > 0 then "PASS" else "FAIL");
+  exit (if !mismatch = 0 && !bad = 0 && !engine_fail = 0 && !total > 0 then 0 else 1)
